@@ -3428,6 +3428,10 @@ class RegexMatch(Match):
         # Create a normal SM
         out_dfa = DFA()
         self._create_dfa_state(self.dfa_2.start_state, out_dfa, True, current_error_handlers[ErrorReasons.NO_MATCH])
+        # If the regex can match the empty string no transition carries the finish actions on that path: leave them
+        # pending on the starting state, so that append_after places them on the transitions that later leave it.
+        if self.finish_actions and self.dfa_2.start_state in self.dfa_2.finishing_states:
+            out_dfa.starting_state.pending_exit_actions = list(self.finish_actions)
         return ProgramData.imbue(out_dfa, DTAG.PARENT, self)
 
 class BinaryRegexMatch(RegexMatch):
